@@ -141,9 +141,32 @@ def run(chk):
         tasks.append({'n': 2, 'k': max(1, S.quant_depth(f)), 'c': 0, 'entry': 'multi_ext_dirty', 'phis': [f], 'order_mode': 'global', 'timeout_ms': 300000 if thorough else 40000})
     ET.run_tasks(chk, 'C04', tasks, signature='batch')
     UC.run_family(chk, 'C04', [(['U2', 'C2'], scope_family())], entries=('ext_dirty', 'ext_multi_dirty'), signature='batch')
+    sub_batches(chk, thorough)
     tf = triple_family()
     UC.run_family(chk, 'C04', [(['U2'], tf if thorough else tf[::2])], entries=('ext_dirty',), signature='batch')
     e_uni(chk, fs + dupf, thorough, n_batches=60 if thorough else 14)
+
+def sub_batches(chk, thorough):
+    """for small formulas f with a closed non-atomic proper sub-formula g: the batches [f, g] and [g, f] share cached results"""
+    rng = chk.rng
+    cand = []
+    for f in G.sample_small(rng, 6000 if thorough else 1500, sizes=(4, 5)):
+        subs = [g for g in G.subformulas(f) if g is not f and g[0] not in ('prop', 'wild', 'var', 'true', 'false') and not S.free_vars(g)]
+        if subs: cand.append((f, rng.choice(subs)))
+    rng.shuffle(cand)
+    for inst in UC.instances(['U2', 'C2'] if thorough else ['U2']):
+        for (f, g) in cand[:400 if thorough else 60]:
+            sess = UC.Session(inst, 3, [{'phis': [f, g], 'entry': 'ext_multi_dirty'}, {'phis': [g, f], 'entry': 'ext_multi_dirty'}])
+            name = f'C04/E-UNI {inst.name} batches [{S.show(f)} ; {S.show(g)}] and reversed: every position == semantics'
+            r0, r1 = sess.runs[0].get('ok'), sess.runs[1].get('ok')
+            if r0 is None or r1 is None:
+                chk.obligation(name, 'E-UNI', 'violated'); chk.violation(name, 'batch-error', {'instance': inst.name, 'aeon': inst.aeon, 'batch': [S.show(f), S.show(g)], 'answers': sess.runs}, f'batch fails: {sess.runs}'); continue
+            ok = True
+            for phi, b in ((f, r0[0]), (g, r0[1]), (g, r1[0]), (f, r1[1])):
+                v = uni.decide([sess.dec.unit, sess.dec.bdd(b) != sess.sem(phi)], 60000); chk.queries += 1
+                if v.status == 'sat': ok = False; UC.confirm(chk, 'C04', sess, phi, b, v.model, name, 'batch')
+                elif v.status != 'unsat': ok = False; chk.obligation(name, 'E-UNI', 'timeout', v.seconds)
+            if ok: chk.obligation(name, 'E-UNI', 'holds', 0.0, True, {'batch': [S.show(f), S.show(g)], 'instance': inst.name})
 
 def e_uni(chk, fs, thorough, n_batches=2):
     rng = chk.rng
